@@ -1,76 +1,175 @@
-"""Registry of proof obligations per property. Each obligation is one Kani harness (one solver
-query over the real code). `tier`: quick obligations run in both tiers, thorough ones only in
-the thorough tier. `timeout`/`mem_gb` are caps; a capped run is reported as undecided."""
+"""Registry of proof obligations per property.
+
+Each obligation is one Kani harness = one solver query over the real code. The harness list is
+discovered from the harness crate's sources (so a harness cannot silently go unregistered); this
+file says, per family of harnesses (regular expression on the name), which property it serves,
+what it decides, which functions of /repo it encodes, and which instances form the quick tier.
+`timeout` / `mem_gb` are caps: a capped run is reported as undecided, never as success."""
 import os
 import re
 
 OLF = "core/src/rules/optimising_line_formatter"
+RECON = "core/src/defaults/reconstructor.rs: DelphiLogicalLinesReconstructor::reconstruct"
+LEXER = "core/src/defaults/lexer.rs"
 
+# (regex on harness name, id prefix, what, functions)
+FAMILIES = [
+    # ---- C01
+    (r"c01_p1_", "P1", "LowercaseKeywords::format changes content only for non-ignored Keyword tokens, to the ASCII-lower-cased original; kind untouched",
+     ["core/src/rules/lowercase_keywords.rs: LowercaseKeywords::format", "core/src/lang.rs: FormattedTokens::tokens_mut, Token::set_content"]),
+    (r"c01_p2_", "P2", "format_line_comment preserves the non-blank characters exactly; result starts with // and has no line break; kind untouched",
+     ["core/src/rules/comment_contents.rs: format_line_comment"]),
+    (r"c01_p3_", "P3", "format_compiler_directive: same length, only lower->upper inside the directive-name prefix",
+     ["core/src/rules/comment_contents.rs: format_compiler_directive"]),
+    (r"c01_p5_", "P5", "reconstruct emits each content exactly once, in order; everything else emitted is space/tab/CR/LF (= reference rendering R0), arbitrary counters, ignored tokens included",
+     [RECON]),
+    # ---- C02
+    (r"c02_h1_", "H1", "hard break invariants of the wrapper for every (previous kind, current kind) pair", [OLF + "/requirements.rs: get_formatting_invariant"]),
+    (r"c02_h2_", "H2", "reconstructor safety net: a single-line comment is always followed by a line break before the next token's content", [RECON]),
+    (r"c02_h3_", "H3", "TokenSpacing never leaves two adjacent word-like tokens without exactly one space, for all neighbour kinds and original spacing", ["core/src/rules/token_spacing.rs: TokenSpacing::format, space_operator"]),
+    (r"c02_h4_", "H4", "upper-casing a directive name cannot change the directive kind (conditional_directive_type is case-insensitive)", [LEXER + ": conditional_directive_type"]),
+    # ---- C03
+    (r"c03_f1a_", "F1a", "result of format_line_comment is in normal form", ["core/src/rules/comment_contents.rs: format_line_comment"]),
+    (r"c03_f1b_", "F1b", "format_line_comment leaves a normal-form comment untouched (with F1a: f(f(x)) = f(x))", ["core/src/rules/comment_contents.rs: format_line_comment"]),
+    (r"c03_f2_", "F2", "format_compiler_directive applied twice = once", ["core/src/rules/comment_contents.rs: format_compiler_directive"]),
+    (r"c03_f3_", "F3", "every keyword of the table, in any letter case, is recognised as the same kind as its lower-case form", [LEXER + ": get_word_token_type, KEYWORDS"]),
+    (r"c03_f4_", "F4", "TokenSpacing::format applied to its own output changes nothing", ["core/src/rules/token_spacing.rs: TokenSpacing::format"]),
+    (r"c03_f6_", "F6", "reconstruct_solution applied to its own result yields the same counters (blank-line clamp is a fixpoint)", [OLF + "/mod.rs: reconstruct_solution"]),
+    # ---- C06
+    (r"c06_n2_", "N2", "two-run non-interference of TokenSpacing: result independent of original horizontal whitespace (outside the documented min(original,1) gaps)", ["core/src/rules/token_spacing.rs: TokenSpacing::format"]),
+    (r"c06_n3_", "N3", "two-run: counters after reconstruct_solution independent of the original counters except blank-line grouping before the line", [OLF + "/mod.rs: reconstruct_solution"]),
+    (r"c06_n5_", "N5", "tail of OptimisingLineFormatter::format is a function of the counters only", [OLF + "/mod.rs: OptimisingLineFormatter::format"]),
+    # ---- C07
+    (r"c07_i1_", "I1", "toggle recogniser parse_toggle == reference syntax (opener, blanks, pasfmt any case, blank, exactly on/off)", ["core/src/rules/formatting_toggle.rs: parse_toggle, parse_pasfmt_directive_comment_contents, parse_pasfmt_toggle"]),
+    (r"c07_i2_", "I2", "FormattingToggler marks exactly off..on regions (inclusive) and lone on-comments", ["core/src/rules/formatting_toggle.rs: FormattingToggler::ignore_tokens"]),
+    (r"c07_i3_", "I3", "ignored tokens cannot be obtained mutably; content rules leave them untouched", ["core/src/lang.rs: FormattedTokens::tokens_mut, get_token_mut", "core/src/rules/comment_contents.rs: CommentFormatter::format"]),
+    (r"c07_i4_", "I4", "a fully ignored region is emitted byte for byte by reconstruct (output == concatenated original texts)", [RECON]),
+    (r"c07_i5_", "I5", "IgnoreAsmIstructions marks exactly the tokens of AsmInstruction lines", ["core/src/rules/ignore_asm_instructions.rs: ignore_tokens"]),
+    # ---- C08
+    (r"c08_s1_", "S1", "K-SPC: after TokenSpacing spaces_before is 0/1 (except directly after an inline line comment), 0 for the first token", ["core/src/rules/token_spacing.rs: TokenSpacing::format"]),
+    (r"c08_s2_", "S2", "OLF::format tail: newlines_before > 0 => spaces_before = 0, nothing else touched", [OLF + "/mod.rs: OptimisingLineFormatter::format"]),
+    (r"c08_s3_", "S3", "K-OLF: reconstruct_solution: first break clamp(orig,1,2), other break 1, continue (0,0,0), indentation from the solution", [OLF + "/mod.rs: reconstruct_solution"]),
+    (r"c08_s4_", "S4", "K-EOF: EofNewline gives a trailing EOF token exactly (1,0,0,0)", ["core/src/rules/eof_newline.rs: EofNewline::format"]),
+    (r"c08_r1_", "R1", "reconstruct renders a contract-satisfying state canonically: no trailing blanks, <= 1 blank line, none at start, <= 1 space inside a line and no tab, whole indentation units, exactly one final terminator", [RECON]),
+    # ---- C09
+    (r"c09_q1_", "Q1", "two-run reconstruct lf vs crlf: crlf output = lf output with every LF replaced by CRLF; lf output has no CR", [RECON]),
+    (r"c09_q3_", "Q3", "FormattingData::from gives the same counters for CRLF and LF versions of the original whitespace", ["core/src/lang.rs: impl From<(&str, bool)> for FormattingData"]),
+    # ---- C10
+    (r"c10_a1_", "A1", "settings -> indentation strings: unit = 1 tab or tab_width spaces, continuation = continuation_indents units", ["front-end/src/lib.rs: From<&FormattingConfig> for ReconstructionSettings", "core/src/lang.rs: ReconstructionSettings::new"]),
+    (r"c10_a2_", "A2", "ReconstructionSettings::new renders width copies of the unit character, byte by byte", ["core/src/lang.rs: ReconstructionSettings::new"]),
+    (r"c10_a3_linewhitespace", "A3a", "LineWhitespace::len = ind*|unit| + cont*|continuation| without overflow", [OLF + "/types.rs: LineWhitespace::len"]),
+    (r"c10_a3_len_equals", "A3b", "LineWhitespace::len == bytes reconstruct emits before the token", [OLF + "/types.rs: LineWhitespace::len", RECON]),
+    (r"c10_a4_", "A4", "two-run: expanding leading tabs of reconstruct(use_tabs) gives reconstruct(spaces)", ["front-end/src/lib.rs: From<&FormattingConfig> for ReconstructionSettings", RECON]),
+    # ---- C12
+    (r"c12_m1_", "M1", "format_multiline_strings == reference (value preserved, terminators = configured, target indentation exact, non-conforming / ignored literals untouched)", [OLF + "/multiline_strings.rs: format_multiline_strings, try_rewrite_string, lines_custom"]),
+    (r"c12_m3_", "M3", "lexer: odd run of >= 3 quotes + line break opens a multi-line literal ending at the first same run, else Unterminated to EOF", [LEXER + ": text_literal"]),
+    # ---- C13
+    (r"c13_l1_", "L1", "one real lexing step from an arbitrary state: structural contract K-LEX + boundary/kind == independent reference scanner", [LEXER + ": whitespace_and_token, lex_token_with_map and the sub-lexer of the class"]),
+    (r"c13_d1_", "D1", "the 256-entry dispatch tables (normal and asm) select the prescribed sub-lexer for every first byte", [LEXER + ": LEXER_MAP, ASM_LEXER_MAP"]),
+    (r"c13_w1_", "W1", "count_leading_whitespace == blank count (<= U+0020 and U+3000); eof consumes exactly the trailing blanks", [LEXER + ": count_leading_whitespace, count_unicode_whitespace, eof"]),
+    (r"c13_v2_", "V2", "scalar identifier scan == reference", [LEXER + ": find_identifier_end_generic"]),
+    (r"c13_v1_", "V1", "AVX2 identifier scan == reference (full chunks + tail, with and without U+3000)", [LEXER + ": find_identifier_end_avx2"]),
+    # ---- C14
+    (r"c14_g1_", "G1", "DirectiveTree passes: every non-conditional token in >= 1 pass, passes strictly increasing without conditional directives, one pass without directives, #passes <= #else-branches + 1", ["core/src/defaults/parser/directive_tree.rs: DirectiveTree::parse, passes, PassIter"]),
+    # ---- C15
+    (r"c15_x_", "X", "cursor attach + re-projection: result within output; inside/at end of unchanged token => same offset in that token; beyond end => end", ["core/src/defaults/reconstructor.rs: process_cursors, relocate_cursors, offset_for_token, ws_len, col_for_token_end_post_fmt"]),
+    # ---- C17
+    (r"c17_u0_", "U0", "BOM sniffing == the three byte-order marks", ["encoding_rs: Encoding::for_bom (as used by orchestrator/src/file_formatter.rs: decode_file)"]),
+    (r"c17_u1_", "U1", "hand-written UTF-16LE/BE encoders == Unicode code-unit arithmetic for arbitrary scalar values", ["orchestrator/src/file_formatter.rs: encode_utf16, encode_utf16le, encode_utf16be"]),
+    (r"c17_u3_", "U3", "write(): bytes == BOM ++ encode(text), returned length == bytes written", ["orchestrator/src/file_formatter.rs: write, encode"]),
+]
 
-def ob(id, harness, what, bounds, functions, tier="quick", timeout=600, mem_gb=10, **kw):
-    d = dict(id=id, harness=harness, what=what, bounds=bounds, functions=functions, tier=tier,
-             timeout=timeout, mem_gb=mem_gb)
-    d.update(kw)
-    return d
+# harnesses of the quick tier (everything else runs in the thorough tier only)
+QUICK = set("""
+c01_p1_lowercase_len3 c01_p2_line_comment_len3 c01_p2_line_comment_ideographic_space_last c01_p3_directive_brace_len4
+c01_p5_recon_tokB_soft c01_p5_recon_tokB_hard_ignored_ws2
+c02_h1_break_invariants_all_kind_pairs c02_h2_safety_net_soft c02_h3_words_never_glued_pos1of3 c02_h3_words_never_glued_pos2of3 c02_h4_directive_kind_case_insensitive_len5
+c03_f1a_line_comment_result_normal_len3 c03_f1b_line_comment_normal_untouched_len4 c03_f2_directive_fixpoint_len3 c03_f3_keywords_any_case_len4 c03_f4_spacing_fixpoint_3kinds c03_f6_solution_fixpoint
+c06_n2_spacing_noninterference_3kinds c06_n3_solution_overwrites_layout c06_n5_olf_tail_reads_counters_only
+c07_i1_toggle_brace_b1_w3 c07_i1_toggle_slashes_b0_w2 c07_i2_region_marking_3tokens c07_i3_mut_access_guard c07_i3_comment_rule_respects_flag c07_i4_emit_verbatim_ws1 c07_i5_asm_lines_marked
+c08_s1_spacing_zero_or_one_3kinds c08_s2_olf_zeroes_spaces_at_line_start c08_s3_apply_solution_counters c08_s4_eof_newline c08_r1_render_soft_w2_w4
+c09_q1_lf_vs_crlf_soft_w2_w4 c09_q3_counters_crlf_eq_lf_nnb
+c10_a1_settings_to_strings c10_a2_new_soft_w0_w3 c10_a2_new_soft_w2_w4 c10_a2_new_hard_w1_w2 c10_a2_new_hard_w5_w0 c10_a3_linewhitespace_len_arith c10_a3_len_equals_emitted_soft_w2_w4 c10_a3_len_equals_emitted_hard_w1_w3 c10_a4_tabs_vs_spaces_tw2_ci2
+""".split())
 
+# obligations shared between properties: (property, harness regex)
+SHARED = [
+    ("C01", r"c12_m1_"),          # P4: multi-line string rewriting preserves the non-blank sequence
+    ("C02", r"c03_f3_"),          # H4: lower-cased keywords keep their kind
+    ("C03", r"c12_m1_one_line_lf$"),
+    ("C08", r"c03_f1a_"),         # line comments end up without trailing ASCII whitespace
+    ("C09", r"c12_m1_"),          # Q2: interior terminators of re-indented literals = configured one
+    ("C13", r"c03_f3_"),          # K1: keyword recognition
+    ("C13", r"c12_m3_"),          # T2: multi-line literal opener / terminator
+    ("C04", r"."),                # filled in below
+]
 
-PROPERTIES = {}
-
-# ---------------------------------------------------------------------------------------------
-PROPERTIES["C10"] = {
-    "explanation": "settings -> indentation strings arithmetic over the full u8 x u8 x bool domain; byte-exact rendering of the "
-                   "strings; the wrapper's line-length accounting equals the bytes the reconstructor emits; tabs-vs-spaces "
-                   "two-run equality of the real reconstructor",
-    "assumptions": ["str::repeat (std) is encoded as compiled; its loop is bounded by unwind 10 (doubling loop, n <= 255*255)"],
-    "outside": ["that the wrapper makes the same decisions under both settings when the width is unconstrained (search not encodable)",
-                "token counts > 3 and counters > 3 in the two-run harness"],
-    "obligations": [
-        ob("A1", "c10::c10_a1_settings_to_strings",
-           "From<&FormattingConfig> for ReconstructionSettings: unit = 1 tab or tab_width spaces; continuation = continuation_indents units",
-           "all 2 x 256 x 256 x 2 (use_tabs, tab_width, continuation_indents, line_ending)",
-           ["front-end/src/lib.rs: From<&FormattingConfig> for ReconstructionSettings", "core/src/lang.rs: ReconstructionSettings::new"]),
-        ob("A2.soft03", "c10::c10_a2_new_soft_w0_w3", "ReconstructionSettings::new renders width copies of the unit, byte by byte", "widths (0,3) spaces", ["core/src/lang.rs: ReconstructionSettings::new"]),
-        ob("A2.soft24", "c10::c10_a2_new_soft_w2_w4", "same", "widths (2,4) spaces", ["core/src/lang.rs: ReconstructionSettings::new"]),
-        ob("A2.hard12", "c10::c10_a2_new_hard_w1_w2", "same", "widths (1,2) tabs", ["core/src/lang.rs: ReconstructionSettings::new"]),
-        ob("A2.hard50", "c10::c10_a2_new_hard_w5_w0", "same", "widths (5,0) tabs", ["core/src/lang.rs: ReconstructionSettings::new"]),
-        ob("A3a", "c10::c10_a3_linewhitespace_len_arith",
-           "LineWhitespace::len = ind*|unit| + cont*|continuation| without u32 overflow",
-           "all u16 x u16 counters x all configurations", [OLF + "/types.rs: LineWhitespace::len"]),
-        ob("A3b.soft", "c10::c10_a3_len_equals_emitted_soft_w2_w4", "LineWhitespace::len == bytes emitted by reconstruct before the token",
-           "counters 0..=3, widths (2,4) spaces", [OLF + "/types.rs: LineWhitespace::len", "core/src/defaults/reconstructor.rs: reconstruct"]),
-        ob("A3b.hard", "c10::c10_a3_len_equals_emitted_hard_w1_w3", "same", "counters 0..=3, widths (1,3) tabs",
-           [OLF + "/types.rs: LineWhitespace::len", "core/src/defaults/reconstructor.rs: reconstruct"]),
-        ob("A4.22", "c10::c10_a4_tabs_vs_spaces_tw2_ci2", "two-run: expand_leading_tabs(reconstruct under use_tabs) == reconstruct under spaces",
-           "3 tokens, nl/ind/cont 0..=2, spaces 0..=1, tab_width=2, continuation_indents=2",
-           ["front-end/src/lib.rs: From<&FormattingConfig> for ReconstructionSettings", "core/src/defaults/reconstructor.rs: reconstruct"]),
-        ob("A4.31", "c10::c10_a4_tabs_vs_spaces_tw3_ci1", "same", "tab_width=3, continuation_indents=1",
-           ["core/src/defaults/reconstructor.rs: reconstruct"], tier="thorough"),
-        ob("A4.13", "c10::c10_a4_tabs_vs_spaces_tw1_ci3", "same", "tab_width=1, continuation_indents=3",
-           ["core/src/defaults/reconstructor.rs: reconstruct"], tier="thorough"),
-    ],
+PROPERTY_META = {
+    "C10": {
+        "explanation": "settings arithmetic over the full configuration domain; byte-exact indentation strings; line-length accounting equals emitted bytes; tabs-vs-spaces two-run equality of the real reconstructor",
+        "outside": ["that the wrapper makes the same decisions under both settings when the width is unconstrained (search not encodable)", "widths/counters beyond the stated instances in A2/A3b/A4"],
+        "assumptions": ["A1/A3a: str::repeat is replaced by a length-only model (a symbolic-size allocation does not fit in CBMC); the real repeat is exercised byte by byte in A2", "A4 assumes contract K-OLF (a token that continues a line carries no indentation), guaranteed by C08/S3"],
+    },
 }
 
 
-def validate(hcrate):
-    """Registry <-> sources consistency."""
-    problems = []
+def harness_names(hcrate):
     src = os.path.join(hcrate, "src")
-    declared = set()
-    for f in os.listdir(src):
+    out = []
+    for f in sorted(os.listdir(src)):
         m = re.match(r"^(c\d+)\.rs$", f)
         if not m:
             continue
         text = open(os.path.join(src, f)).read()
-        for n in re.findall(r"^\s*fn (c\d+_\w+)\(\) unwind\(", text, re.M) + re.findall(r"^\s*(c\d+_\w+) => \(", text, re.M):
-            declared.add(f"{m.group(1)}::{n}")
-    registered = set()
-    for pid, spec in PROPERTIES.items():
-        for o in spec["obligations"]:
-            registered.add(o["harness"])
-            if o.get("excluding_known"):
-                registered.add(o["excluding_known"])
-    for h in sorted(registered - declared):
-        problems.append(f"registered harness {h} not found in sources")
-    for h in sorted(declared - registered):
-        problems.append(f"harness {h} is declared but not registered")
-    return problems
+        names = re.findall(r"\bfn (c\d+_\w+)\(\) unwind\(", text) + re.findall(r"\b(c\d+_\w+) => \(", text)
+        for n in names:
+            out.append((m.group(1), n))
+    return out
+
+
+def bounds_from_name(n):
+    return n.split("_", 2)[2] if n.count("_") >= 2 else n
+
+
+def build(hcrate=None):
+    hcrate = hcrate or os.path.join(os.path.dirname(os.path.abspath(__file__)), "kani", "h")
+    props = {}
+    unmatched = []
+    for mod, name in harness_names(hcrate):
+        fam = next((f for f in FAMILIES if re.match(f[0], name)), None)
+        if fam is None:
+            unmatched.append(name)
+            continue
+        pid = "C" + mod[1:]
+        o = dict(id=f"{fam[1]}.{bounds_from_name(name)}", harness=f"{mod}::{name}", what=fam[2], bounds=bounds_from_name(name),
+                 functions=fam[3], tier="quick" if name in QUICK else "thorough", timeout=TIMEOUTS.get(name, 1500),
+                 mem_gb=MEM.get(name, 12), feature=mod)
+        if name.startswith("c13_v1_"):
+            o["flags"] = []  # memory-safety checks ON for the unsafe AVX2 routine
+        props.setdefault(pid, []).append(o)
+    # shared obligations
+    all_obs = [o for obs in props.values() for o in obs]
+    for pid, rx in SHARED:
+        if pid == "C04":
+            continue
+        for o in all_obs:
+            if re.match(rx, o["harness"].split("::")[1]) and not any(x["harness"] == o["harness"] for x in props.get(pid, [])):
+                o2 = dict(o)
+                o2["id"] = "shared:" + o["id"]
+                props.setdefault(pid, []).append(o2)
+    out = {}
+    for pid, obs in sorted(props.items()):
+        meta = PROPERTY_META.get(pid, {})
+        out[pid] = {"obligations": obs, "explanation": meta.get("explanation", ""), "outside": meta.get("outside", []),
+                    "assumptions": meta.get("assumptions", []), "contracts": meta.get("contracts", [])}
+    return out, unmatched
+
+
+TIMEOUTS = {}
+MEM = {}
+
+PROPERTIES, UNMATCHED = build()
+
+
+def validate(hcrate):
+    return [f"harness {n} matches no family in obligations.FAMILIES" for n in UNMATCHED]
